@@ -201,6 +201,13 @@ pub fn generate_with(rng: &mut Rng, tier: Tier, allow_null: bool) -> Plan {
         days.push(next.min(cap).max(days.last().unwrap() + 1));
     }
     days.dedup();
+    // sometimes one node sits exactly on the epoch (timestamp 0)
+    if rng.chance(0.02) {
+        let shift = *rng.pick(&days);
+        for d in days.iter_mut() {
+            *d -= shift;
+        }
+    }
     let n = days.len();
     let kind = rng.weighted(&[40, 35, 25]) as u8;
     let id = {
@@ -255,7 +262,7 @@ pub fn generate_with(rng: &mut Rng, tier: Tier, allow_null: bool) -> Plan {
             _ => v,
         };
         nodes.push(NodeSpec {
-            ts: d * DAY + if intraday { rng.i64_in(0, DAY - 1) } else { 0 },
+            ts: d * DAY + if intraday && *d != 0 { rng.i64_in(0, DAY - 1) } else { 0 },
             num: gen_num(rng, kind, v, if many_vars { if n <= 6 { 24 } else { 4 } } else { 2 }, prefix),
             ns: if subsecond && rng.chance(0.5) {
                 rng.below(1_000_000_000) as u32
